@@ -59,6 +59,23 @@ other string, so it appears / disappears / changes like any other.  Two places e
     a first sync, a later sync of a new process, a rerun after a crash and a sync of a live instance.
 The oracle is unchanged (the #define map decides what changed); the signature of a finding on a string option names the
 tristate-looking text involved (key `text`).
+
+Name SHAPE dimension (names on which a textual transformation of a name is not the identity).  An option / alias name is turned into
+a rename-table key (prefix stripped from `CONFIG_<name>`), an auto.conf line (`CONFIG_<name>=...`, parsed back by the next sync) and a
+path (`lower()`, `_` -> `/`); the dependency file of a name is a function of the WHOLE name, so a name in which the text of the
+config prefix occurs again (inside, doubled at the start, twice) must keep every occurrence.  Two places explore it:
+  * the main world carries, in EVERY history / session of families (1)-(2), the option ESP_CONFIG_W (int; prefix text inside the option
+    name; changed by configuration 3, removed by tree version rm_alias) with the alias OLD_CONFIG_W, the alias ESP_CONFIG_OLDM of the
+    plainly named M, the alias ESP_OLDM (= that name without the inner occurrence) of ANOTHER option (NEWI, inverted), and the alias
+    CONFIG_OLDP (rename line `CONFIG_CONFIG_OLDP CONFIG_NEWP`) next to its plain twin OLDP -- so each appears at a first sync, changes,
+    disappears with its target, is removed / re-added by a tree version and is subject to every crash point;
+  * family (3) runs EVERY rename table under every pair (shape of the three deprecated names, shape of the target option names):
+    OLD_SHAPES = plain | inner_prefix | prefix_twice | prefix_start_and_inner (the three names of a shape differ from each other exactly
+    by deleting occurrences of the prefix text, so a wrongly transformed name is at once the name of another alias, of another target if
+    the table says so) x TARGET_SHAPES = plain | prefix_in_option_name (tree with the options NEW_CONFIG_P, CONFIG_M,
+    T_CONFIG_CONFIG_T).  The signature of a finding names both shapes (keys `alias_names`, `target_names`) unless both are plain.
+The reference does not change: file of a name = cdep(name) of the name as written in the Kconfig file / after the first CONFIG_ of the
+rename line.
 """
 
 from __future__ import annotations
@@ -90,7 +107,11 @@ RULE = (
     "(counter session_syncs). (3) rename tables, crash-free: every sequence of 1..3 (thorough 1..4) rename lines over 3 deprecated names "
     "(up to renaming: in order of first use) x 4 targets (bool, inverted bool, int, dependent string whose text is n), as one file and -- if a name is mapped again -- "
     "split into two files at the re-mapping, each under one 5-sync history (target appears / changes / is removed from the tree / "
-    "comes back; counter rename_table_runs). "
+    "comes back; counter rename_table_runs), and each under all 4 x 2 name shapes: deprecated names plain / with the text CONFIG_ inside, "
+    "deleted, doubled at the start / twice, once, not at all / at the start and inside, twice inside, deleted (the three names of a shape differ "
+    "exactly by deleting occurrences of the prefix text) x target option names plain / NEW_CONFIG_P, CONFIG_M, T_CONFIG_CONFIG_T. "
+    "Names with the prefix text inside are also part of every history of (1) and (2): option ESP_CONFIG_W with alias OLD_CONFIG_W, aliases "
+    "ESP_CONFIG_OLDM (of M), ESP_OLDM (of NEWI, inverted), CONFIG_OLDP (of NEWP, next to OLDP). "
     "evaluations = executed (prefix, crash point) pairs + crash-free histories + executed continuations + sessions + rename-table "
     "histories. distinct_nontrivial counts distinct (changed set, touched set) pairs of crash-free syncs with a non-empty "
     "changed set, distinct (crash operation, touched-in-crashed-run, touched-in-rerun, changed set) tuples of crashed syncs and distinct "
@@ -101,6 +122,9 @@ ASSUMPTIONS = [
     "alias changes iff its replacement changes; the rename table is the same for all tree versions of one history; a deprecated "
     "name that is mapped more than once has its LAST mapping only (load_rename_files docstring), the other names keep theirs; "
     "targets of rename lines are options of some tree version, deprecated names are never options or targets",
+    "names: option names match [A-Z0-9_]+ and deprecated names [A-Z0-9_]+ (what the rename-line grammar accepts for both sides), may contain "
+    "the text of the config prefix any number of times, do not end in `_` and contain no `__` (no empty path component); distinct names have "
+    "distinct dependency files (no two names that differ in letter case only)",
     "crash model: process death; completed operations persist on tmpfs, no reordering; each write() reaches the file as a "
     "prefix at the enumerated cut points; directories' own mtimes are not observed",
     "configurations are entered with Symbol.set_value on a fresh instance; in families (1) and (3) every sync (also the rerun after a "
@@ -126,8 +150,16 @@ RENAMES = (
     "CONFIG_OLDM CONFIG_M\n"
     "CONFIG_OLD_ADDED CONFIG_ADDED\n"
     "CONFIG_OLD_T CONFIG_T\n"
+    # names in which the text of the config prefix occurs again (see "Name SHAPE dimension" in the module docstring): an alias with the
+    # prefix inside its name for an option with such a name / for a plainly named option; the name that is left when that inner
+    # occurrence is deleted, as an alias of ANOTHER option (inverted); the prefix doubled at the start, next to its plain twin OLDP
+    "CONFIG_OLD_CONFIG_W CONFIG_ESP_CONFIG_W\n"
+    "CONFIG_ESP_CONFIG_OLDM CONFIG_M\n"
+    "CONFIG_ESP_OLDM !CONFIG_NEWI\n"
+    "CONFIG_CONFIG_OLDP CONFIG_NEWP\n"
 )
-ALIASES = {"OLDP": ("NEWP", False), "OLD_I": ("NEWI", True), "OLDM": ("M", False), "OLD_ADDED": ("ADDED", False), "OLD_T": ("T", False)}
+ALIASES = {"OLDP": ("NEWP", False), "OLD_I": ("NEWI", True), "OLDM": ("M", False), "OLD_ADDED": ("ADDED", False), "OLD_T": ("T", False),
+           "OLD_CONFIG_W": ("ESP_CONFIG_W", False), "ESP_CONFIG_OLDM": ("M", False), "ESP_OLDM": ("NEWI", True), "CONFIG_OLDP": ("NEWP", False)}
 # the `text` world: one string option whose value text looks like a tristate
 RENAMES_TEXT = "CONFIG_OLD_T CONFIG_T\n"
 ALIASES_TEXT = {"OLD_T": ("T", False)}
@@ -142,6 +174,8 @@ _OPTS = {
     "NEWP": ('bool "newp"',),
     "NEWI": ('bool "newi"', "default y"),
     "M": ('int "m"', "default 2"),
+    # an option whose NAME contains the text of the config prefix (auto.conf line CONFIG_ESP_CONFIG_W=4, file esp/config/w.cdep)
+    "ESP_CONFIG_W": ('int "w"', "default 4"),
     "ADDED": ('int "added"', "default 3"),
     "P_RM": ('bool "p_rm"', "default y"),
     # a string whose value is the TEXT n (not the bool n): build-visible whenever B is on
@@ -155,14 +189,15 @@ _OPTS = {
 # version -> ordered option keys
 _VERSIONS = {
     # (T is NOT the last option: the option written last must be able to go to n alone, see CONFIGS_QUICK[6])
-    "base": ["FOO_BAR", "B", "N", "S", "U", "NEWP", "NEWI", "M", "T", "P_RM"],
+    "base": ["FOO_BAR", "B", "N", "S", "U", "NEWP", "NEWI", "M", "ESP_CONFIG_W", "T", "P_RM"],
     # option added (with an alias), option with alias removed, option without alias removed, option retyped
-    "all": ["FOO_BAR", "B", "N:string", "S", "U", "NEWI", "M", "T", "ADDED"],
-    "add": ["FOO_BAR", "B", "N", "S", "U", "NEWP", "NEWI", "M", "T", "P_RM", "ADDED"],
-    # NEWP (plain alias, bool), M (plain alias, int), NEWI (inverted alias), T (plain alias, string with the text n) removed
+    "all": ["FOO_BAR", "B", "N:string", "S", "U", "NEWI", "M", "ESP_CONFIG_W", "T", "ADDED"],
+    "add": ["FOO_BAR", "B", "N", "S", "U", "NEWP", "NEWI", "M", "ESP_CONFIG_W", "T", "P_RM", "ADDED"],
+    # NEWP (plain alias, bool), M (plain alias, int), NEWI (inverted alias), T (plain alias, string with the text n), ESP_CONFIG_W (prefix
+    # text inside the name of the option and of its alias) removed
     "rm_alias": ["FOO_BAR", "B", "N", "S", "U", "P_RM"],
-    "rm_plain": ["FOO_BAR", "B", "N", "S", "NEWP", "NEWI", "T", "M"],  # U and P_RM removed (no aliases)
-    "retype": ["FOO_BAR", "B", "N:string", "S", "U", "NEWP", "NEWI", "M", "T", "P_RM"],
+    "rm_plain": ["FOO_BAR", "B", "N", "S", "NEWP", "NEWI", "T", "ESP_CONFIG_W", "M"],  # U and P_RM removed (no aliases)
+    "retype": ["FOO_BAR", "B", "N:string", "S", "U", "NEWP", "NEWI", "M", "ESP_CONFIG_W", "T", "P_RM"],
     # text world: with / without the string option
     "txt": ["G", "T:g", "K"],
     "txt_rm": ["G", "K"],
@@ -171,18 +206,25 @@ WORLD_VERSIONS = {"main": ["base", "all", "add", "rm_alias", "rm_plain", "retype
 WORLD_RENAMES = {"main": (RENAMES, ALIASES), "text": (RENAMES_TEXT, ALIASES_TEXT)}
 
 
-def tree_text(ver: str) -> str:
+def tree_text(ver: str, naming: Optional[Dict[str, str]] = None) -> str:
+    """naming: {option name used in this module: name the option has in the generated tree} (definitions and `depends on` lines)"""
+    naming = naming or {}
     out = ['mainmenu "T"', ""]
     for key in _VERSIONS[ver]:
-        out.append(f"config {key.split(':')[0]}")
-        out.extend("    " + line for line in _OPTS[key])
+        name = key.split(":")[0]
+        out.append(f"config {naming.get(name, name)}")
+        for line in _OPTS[key]:
+            if line.startswith("depends on "):
+                dep = line[len("depends on "):]
+                line = "depends on " + naming.get(dep, dep)
+            out.append("    " + line)
         out.append("")
     return "\n".join(out)
 
 
-def tree_files(ver: str, rename_texts: Optional[List[str]] = None) -> Dict[str, str]:
+def tree_files(ver: str, rename_texts: Optional[List[str]] = None, naming: Optional[Dict[str, str]] = None) -> Dict[str, str]:
     """program files of a tree version; rename_texts: the texts of the sdkconfig.rename files (default: [RENAMES])"""
-    files = {"Kconfig": tree_text(ver)}
+    files = {"Kconfig": tree_text(ver, naming)}
     for name, text in zip(rename_file_names(len(rename_texts or [RENAMES])), rename_texts or [RENAMES]):
         files[name] = text
     return files
@@ -196,7 +238,7 @@ CONFIGS_QUICK = [
     {},
     {"FOO_BAR": "y", "N": "7"},
     {"B": "n"},
-    {"S": 'x\\y"z', "M": "9"},
+    {"S": 'x\\y"z', "M": "9", "ESP_CONFIG_W": "8"},
     {"NEWP": "y", "NEWI": "n"},
     {"NEWP": "y", "ADDED": "4", "U": "6", "P_RM": "n"},
     # differs from the default configuration only in the option written LAST (auto.conf becomes a strict prefix)
@@ -252,7 +294,8 @@ def items(tier: str, seed: int):
         for pre in session_prefixes(vers, cfgs):
             out.append({"kind": "sessions", "prefix": pre, "space": [t, k]})
     for lines in rename_tables(TABLE_LINES[t]):
-        out.append({"kind": "table", "lines": [list(l) for l in lines]})
+        for shape in table_shapes(lines):
+            out.append({"kind": "table", "lines": [list(l) for l in lines], "shape": list(shape)})
     return out
 
 
@@ -382,6 +425,9 @@ class World:
         look = [_LOOKALIKE[x] for x in (b, a) if x in _LOOKALIKE]
         if look and out["type"] != "bool":
             out["text"] = look[0]
+        # the name behind the file (option or alias) contains the text of the config prefix: named in the signature
+        if "CONFIG_" in name:
+            out["name_shape"] = "prefix_text_in_name"
         return out
 
 
@@ -857,6 +903,38 @@ TABLE_TARGETS = (("NEWP", False), ("NEWP", True), ("M", False), ("T", False))
 TABLE_HISTORY = [("base", {}), ("base", {"NEWP": "y"}), ("base", {"NEWP": "y", "M": "9"}), ("rm_alias", {}), ("base", {"M": "9"})]
 
 
+# Name SHAPES.  The abstract deprecated names TABLE_OLD[i] / target names are replaced by concrete ones.  A shape is a class of
+# names on which a textual transformation of a name (deleting / splitting at / stripping repeatedly the text of the config prefix)
+# is NOT the identity, and whose three members differ from each other exactly by such a transformation, so that a wrongly
+# transformed name is at once the name of another alias of the table (of another target, if the lines say so).
+OLD_SHAPES = {
+    "plain": ("OLDA", "OLD_B", "OLDC"),
+    # prefix text inside the name; the name left when that occurrence is deleted; the prefix doubled at the start of that name
+    # (rename line CONFIG_CONFIG_OLD_A ...)
+    "inner_prefix": ("OLD_CONFIG_A", "OLD_A", "CONFIG_OLD_A"),
+    # prefix text twice (adjacent); once; not at all -- each is the previous one with one occurrence deleted
+    "prefix_twice": ("X_CONFIG_CONFIG_B", "X_CONFIG_B", "X_B"),
+    # prefix text at the start AND inside; two separated inner occurrences; what is left of both when every occurrence is deleted
+    "prefix_start_and_inner": ("CONFIG_Y_CONFIG_C", "Y_CONFIG_Z_CONFIG_C", "Y_Z_C"),
+}
+TARGET_SHAPES = {
+    "plain": {},
+    # option names: prefix text inside / doubled at the start (auto.conf line CONFIG_CONFIG_M=2) / twice inside
+    "prefix_in_option_name": {"NEWP": "NEW_CONFIG_P", "M": "CONFIG_M", "T": "T_CONFIG_CONFIG_T"},
+}
+
+
+def table_shapes(lines) -> List[Tuple[str, str]]:
+    """(shape of the deprecated names, shape of the target names) pairs a table is run under: all of them"""
+    return [(o, t) for o in OLD_SHAPES for t in TARGET_SHAPES]
+
+
+def shaped(lines: List[Tuple[str, str, bool]], shape: Tuple[str, str]) -> Tuple[List[Tuple[str, str, bool]], Dict[str, str]]:
+    """the table with concrete names, and the naming of the tree's options"""
+    olds, naming = OLD_SHAPES[shape[0]], TARGET_SHAPES[shape[1]]
+    return [(olds[TABLE_OLD.index(o)], naming.get(t, t), bool(i)) for o, t, i in lines], naming
+
+
 def _growth_strings(n: int, k: int) -> List[Tuple[int, ...]]:
     """restricted growth strings of length n over at most k symbols (deprecated names up to renaming)"""
     out: List[Tuple[int, ...]] = []
@@ -916,12 +994,17 @@ def table_splits(lines: List[Tuple[str, str, bool]]) -> List[int]:
     return [0]
 
 
-def run_table(lines: List[Tuple[str, str, bool]], split: int, r: common.Result) -> "Run":
-    lines = [(o, t, bool(i)) for o, t, i in lines]
+def run_table(lines: List[Tuple[str, str, bool]], split: int, r: common.Result, shape: Tuple[str, str] = ("plain", "plain")) -> "Run":
+    """lines: abstract table (names of TABLE_OLD / TABLE_TARGETS); shape: the concrete names it is run with"""
+    cls = table_class([(o, t, bool(i)) for o, t, i in lines])
+    lines, naming = shaped(lines, shape)
     texts = ["".join(table_line(l) for l in lines)] if not split else ["".join(table_line(l) for l in lines[:split]), "".join(table_line(l) for l in lines[split:])]
     vers = sorted({v for v, _ in TABLE_HISTORY})
-    w = World({v: tree_files(v, texts) for v in vers}, effective_aliases(lines), rename_file_names(len(texts)))
-    run = Run(w, [(v, dict(c)) for v, c in TABLE_HISTORY], r, {"rename_table": table_class(lines), "rename_files": len(texts)})
+    w = World({v: tree_files(v, texts, naming) for v in vers}, effective_aliases(lines), rename_file_names(len(texts)))
+    extra = {"rename_table": cls, "rename_files": len(texts)}
+    if tuple(shape) != ("plain", "plain"):
+        extra["alias_names"], extra["target_names"] = shape[0], shape[1]
+    run = Run(w, [(v, {naming.get(n, n): x for n, x in c.items()}) for v, c in TABLE_HISTORY], r, extra)
     run.crash_free()
     r.count("rename_table_runs")
     return run
@@ -955,12 +1038,14 @@ def run_item(item) -> common.Result:
         return r
     if kind == "table":
         lines = [tuple(l) for l in item["lines"]]
+        shape = tuple(item.get("shape", ("plain", "plain")))
         for split in table_splits(lines):
-            run = run_table(lines, split, r)
+            run = run_table(lines, split, r, shape)
         r.sample = {
+            "name_shapes": list(shape),
             "rename_files": [run.w.versions["base"][f] for f in run.w.rename_files],
             "effective_aliases": {a: list(t) for a, t in sorted(run.w.aliases.items())},
-            "history": [[v, cfg] for v, cfg in TABLE_HISTORY],
+            "history": [[v, cfg] for v, cfg in run.h],
         }
         return r
     wname, states = ALPHABETS[item["alphabet"]]
